@@ -17,9 +17,13 @@ LEVEL_TEXT = ("Machine-checked proof (Coq, closed under the global context) that
               "injective; the model is tied to message.py/util.py by a differential run of the model's own "
               "definitions (vm_compute) against the real code on generated cases every run.")
 LEVEL_NOTE = ("Trusted: Coq kernel + vm_compute; hand-written model coq/Model/C39.v (limb loops, strip, padding, "
-              "BytesIO read/zero-pad rule) validated only by the correspondence run; UTF-8 decoding of text fields "
+              "BytesIO read/zero-pad rule) tied to the source by gen/c39.py (every modelled body must match its statement "
+              "template; literals proved equal to the model's in C39_source_constants) and by the correspondence run; UTF-8 decoding of text fields "
               "is outside the model (cases use valid UTF-8); struct.pack range errors modelled as StructErr.")
-TECHNIQUE = "Coq proof (induction over limbs/field lists) + vm_compute differential correspondence"
+GENS = ["c39"]
+TECHNIQUE = ("Coq proof (induction over limbs/field lists) + fail-closed AST translator gen/c39.py (statement templates of "
+             "every Message method, deflate_long, inflate_long; literals re-proved equal to the model's) + vm_compute "
+             "differential correspondence")
 
 KINDS = ["KByte", "KBool", "KU32", "KU64", "KAdaptive", "KString", "KList", "KMpint"]
 
@@ -230,7 +234,7 @@ def run(ctx):
     ctx.trusted += ["model coq/Model/C39.v is hand-written; tied to paramiko/message.py and util.py by this "
                     "differential run (vm_compute of the model's own definitions, no extraction)",
                     "UTF-8 decoding in get_text/get_list is outside the model (cases use valid UTF-8)"]
-    ctx.prove()
+    ctx.prove(GENS)
 
     # constants the model hard-codes, cross-checked against the working tree on every run
     import ast as _ast, inspect as _inspect
